@@ -96,7 +96,7 @@ def gen_blob(r: random.Random, big=False):
 
 
 def gen_new_batch(r: random.Random, canonical_ms=True):
-    n = r.choice([1, 1, 2, 3, 5, 12]) if r.random() > 0.05 else r.choice([63, 64, 65, 128])   # record count at zig-zag varint edges
+    n = r.choice([1, 1, 2, 3, 5, 12]) if r.random() > 0.025 else r.choice([63, 64, 65, 128])   # record count at zig-zag varint edges
     base_ts_ms = r.choice([0, 1, 999, 1001, 1700000000123, r.randrange(0, 4102444800000)])
     base_off = r.choice([0, 1, 2**31, 2**62, r.randrange(0, 2**40)])
     recs = []
@@ -109,9 +109,9 @@ def gen_new_batch(r: random.Random, canonical_ms=True):
         recs.append({
             "attributes": r.choice([0, 0, 1, -128, 127]), "timestamp": us, "offset": off,
             "key": gen_blob(r), "value": gen_blob(r, big=r.random() < 0.01),
-            "headers": ([(gen_blob(r), gen_blob(r)) for _ in range(r.choice([0, 0, 1, 3]))] if r.random() > 0.06 or n > 12 else
+            "headers": ([(gen_blob(r), gen_blob(r)) for _ in range(r.choice([0, 0, 1, 3]))] if r.random() > 0.04 or n > 12 else
                         # header COUNT at the zig-zag varint edges (64 needs two bytes), tiny headers
-                        [(r.choice([None, b"", b"k"]), r.choice([None, b"", b"v"])) for _ in range(r.choice([63, 64, 65, 127, 128, 200]))])})
+                        [(r.choice([None, b"", b"k"]), r.choice([None, b"", b"v"])) for _ in range(r.choice([63, 64, 65, 127, 128]))])})
     if r.random() < 0.15:
         # two instants one hour apart that share a wall-clock time in a DST zone (fold 0 / fold 1)
         zone, first = r.choice([("Europe/Berlin", 1698539400), ("America/New_York", 1699162200), ("Europe/London", 1729989000)])
